@@ -3,7 +3,8 @@
    the contract norms_valid (n > 0, n^2 = sum of squares); linear_sum_assignment is the oracle `assign`
    with contract lsa_contract (a maximum-weight perfect matching). *)
 From Coq Require Import List Arith Bool Reals QArith.
-From TLV Require Import Base.Shape Base.PyList Base.Tensor Base.Ops Base.RSum Model.Metrics Proofs.MetricsProofs.
+From TLV Require Import Base.Shape Base.PyList Base.Tensor Base.Ops Base.RSum Model.Metrics Proofs.MetricsProofs
+  Proofs.MetricsProofs2 Proofs.MetricsProofs3 Proofs.MetricsProofs4.
 Import ListNotations.
 Local Close Scope Q_scope.
 Local Open Scope R_scope.
@@ -48,3 +49,117 @@ Theorem C20_congruence_range : forall (absv : bool) (As Bs : list (mat R)) (nas 
   is_perm (ncols (hd [] As)) p -> -1 <= v <= 1 /\ (absv = true -> 0 <= v).
 Proof. exact congruence_range. Qed.
 Print Assumptions C20_congruence_range.
+
+(* ---------- column-permuted / column-rescaled (sign-flipped) copies ---------- *)
+(* column j of B a non-zero multiple of column i of A  =>  their cosine is the sign of the multiplier *)
+Theorem C20_cosine_of_multiple : forall (r : nat) (m : cmode R) (i j : nat) (d : R),
+  mode_ok r m -> (i < r)%nat -> (j < r)%nat -> col_multiple m i j d -> cosine m i j = d / Rabs d.
+Proof. exact cosine_of_multiple. Qed.
+Print Assumptions C20_cosine_of_multiple.
+
+(* equivalent_by absv r ms rec: rec is a permutation and, in every mode, column rec[i] of B is a non-zero multiple of
+   column i of A (a positive multiple when absolute_value is off).  Then the coefficient is 1, the recovering
+   permutation attains it, so does the returned one, and (absolute values) the returned matching pairs columns
+   with |cosine| = 1 in every mode.  Conditional on the oracle contract like C20_congruence_is_max. *)
+Theorem C20_congruence_equiv_one : forall (absv : bool) (As Bs : list (mat R)) (nas nbs : list (list R))
+  (assign : mat R -> list nat) (v : R) (p rec : list nat),
+  congruence Rops absv As Bs nas nbs assign = Ok (v, p) -> tape_valid (zip_modes As Bs nas nbs) -> lsa_contract assign ->
+  let r := ncols (hd [] As) in let ms := zip_modes As Bs nas nbs in
+  (0 < r)%nat -> equivalent_by absv r ms rec ->
+  v = 1 /\ score Rops r (cong_all Rops absv r ms) rec = 1 /\ score Rops r (cong_all Rops absv r ms) p = 1 /\
+  (absv = true -> forall i m, (i < r)%nat -> In m ms -> Rabs (cosine m i (nth i p 0%nat)) = 1).
+Proof. exact congruence_equiv_one. Qed.
+Print Assumptions C20_congruence_equiv_one.
+
+(* no oracle involved: ANY matching of mean congruence 1 pairs collinear columns in every mode *)
+Theorem C20_score_one_aligned : forall (r : nat) (ms : list (cmode R)) (p : list nat),
+  (0 < r)%nat -> Forall (mode_ok r) ms -> is_perm r p -> score Rops r (cong_all Rops true r ms) p = 1 ->
+  forall i m, (i < r)%nat -> In m ms -> Rabs (cosine m i (nth i p 0%nat)) = 1.
+Proof. exact score_one_aligned. Qed.
+Print Assumptions C20_score_one_aligned.
+
+(* cp_permute_factors: weights and factor columns are permuted by the returned permutation, and for an equivalent
+   tensor component i of the result (= column p[i] of the input) is collinear with component i of the reference *)
+Theorem C20_cp_permute_aligned : forall (ref fs : list (mat R)) (w : list R) (nas nbs : list (list R))
+  (assign : mat R -> list nat) (w' : list R) (fs' : list (mat R)) (p rec : list nat),
+  cp_permute_factors Rops ref fs w nas nbs assign = Ok (w', fs', p) ->
+  tape_valid (zip_modes ref fs nas nbs) -> lsa_contract assign ->
+  let r := ncols (hd [] ref) in let ms := zip_modes ref fs nas nbs in
+  (0 < r)%nat -> equivalent_by true r ms rec ->
+  is_perm r p /\ w' = map (fun k => nth k w 0) p /\ fs' = map (permute_cols Rops p) fs /\
+  (forall i m, (i < r)%nat -> In m ms -> Rabs (cosine m i (nth i p 0%nat)) = 1).
+Proof. exact cp_permute_aligned. Qed.
+Print Assumptions C20_cp_permute_aligned.
+
+(* ---------- leverage scores ---------- *)
+(* U: left factor of the thin SVD (oracle), unit-norm columns.  The returned vector has one entry per row, is
+   non-negative and sums to one -- whatever numerical rank the cut selects *)
+Theorem C20_leverage_simplex : forall (U : mat R) (sv : list R) (nr nc : nat) (eps : R) (l : list R),
+  leverage_score_dist Rops U sv nr nc eps = Ok l ->
+  (forall j, (j < length sv)%nat -> rsum nr (fun i => (mget Rops U i j) ^ 2) = 1) ->
+  length l = nr /\ Forall (fun x => 0 <= x) l /\ fsum Rops l = 1.
+Proof. exact leverage_score_dist_simplex. Qed.
+Print Assumptions C20_leverage_simplex.
+
+(* ---------- correlation index, all four methods ---------- *)
+Theorem C20_corrindex_range : forall (meth : cmethod) (tol : R) (f1s f2s : list (mat R)) (n1s n2s : list (list R)) (v : R),
+  correlation_index Rops (Some meth) tol f1s f2s n1s n2s = Ok v ->
+  tape_valid (ci_modes meth f1s f2s n1s n2s) -> 0 <= v <= 1.
+Proof. exact correlation_index_range. Qed.
+Print Assumptions C20_corrindex_range.
+
+(* cols_covered m r: every column of A has a partner of |cosine| 1 in B and vice versa.  ci_modes = the pairs the
+   method compares (the stacked matrices for Stacked, the modes otherwise) *)
+Theorem C20_corrindex_zero : forall (meth : cmethod) (tol : R) (f1s f2s : list (mat R)) (n1s n2s : list (list R)) (v : R),
+  correlation_index Rops (Some meth) tol f1s f2s n1s n2s = Ok v ->
+  tape_valid (ci_modes meth f1s f2s n1s n2s) ->
+  (forall m, In m (ci_modes meth f1s f2s n1s n2s) -> cols_covered m (ncols (mA m))) -> v = 0.
+Proof. exact correlation_index_zero. Qed.
+Print Assumptions C20_corrindex_zero.
+
+Theorem C20_equivalent_covered : forall (r : nat) (m : cmode R) (rec : list nat),
+  mode_ok r m -> equivalent_by true r [m] rec -> cols_covered m r.
+Proof. exact equivalent_covered. Qed.
+Print Assumptions C20_equivalent_covered.
+
+(* the converse ("0 exactly for equivalent sets") only for a non-positive threshold and the max_score method: with
+   the default tol = 5e-16 > 0 the code maps every index below tol to 0 by design, so the converse is false there *)
+Theorem C20_corrindex_zero_only_if_covered_partial : forall (tol : R) (f1s f2s : list (mat R)) (n1s n2s : list (list R)) (v : R),
+  correlation_index Rops (Some MaxScore) tol f1s f2s n1s n2s = Ok v -> tol <= 0 ->
+  tape_valid (ci_modes MaxScore f1s f2s n1s n2s) -> v = 0 ->
+  forall m, In m (ci_modes MaxScore f1s f2s n1s n2s) -> (0 < ncols (mA m))%nat -> cols_covered m (ncols (mA m)).
+Proof. exact correlation_index_zero_inv. Qed.
+Print Assumptions C20_corrindex_zero_only_if_covered_partial.
+
+(* ---------- non-vacuity ---------- *)
+(* the oracle contract is satisfiable: the brute force itself meets it *)
+Example C20_ex_lsa_contract : lsa_contract (fun C => best_perm Rops (nrows C) C).
+Proof. intros r C <-. split; [apply best_perm_is_perm | intros q Hq; now apply best_perm_max]. Qed.
+
+Example C20_ex_all_perms : all_perms 3 = [[0; 1; 2]; [1; 0; 2]; [1; 2; 0]; [0; 2; 1]; [2; 0; 1]; [2; 1; 0]]%nat.
+Proof. reflexivity. Qed.
+
+(* a mode satisfying mode_ok whose B column is -2 times the A column; the recovering permutation is [0] *)
+Definition C20_ex_mode : cmode R := mkMode [[3]; [4]] [[-6]; [-8]] [5] [10].
+Example C20_ex_mode_ok : mode_ok 1 C20_ex_mode /\ col_multiple C20_ex_mode 0 0 (-2) /\ equivalent_by true 1 [C20_ex_mode] [0%nat].
+Proof.
+  assert (M : mode_ok 1 C20_ex_mode).
+  { repeat split; try reflexivity; intros j Hj; assert (j = 0%nat) as -> by lia; cbn; lra. }
+  assert (K : col_multiple C20_ex_mode 0 0 (-2)).
+  { split; [lra|]. intros k Hk. cbn in Hk. destruct k as [|[|k]]; cbn; try lra. lia. }
+  split; [exact M|]. split; [exact K|]. split; [apply is_perm_id|].
+  intros i Hi m [<-|[]]. assert (i = 0%nat) as -> by lia. exists (-2). split; [exact K | discriminate].
+Qed.
+
+(* the executed instance accepts such an input and returns 1 with the recovering permutation *)
+Example C20_ex_congruence_Q :
+  congruence Qops true [[[3#1]; [4#1]]] [[[-6#1]; [-8#1]]] [[5#1]] [[10#1]] (fun _ => [0%nat]) = Ok (1%Q, [0%nat]).
+Proof. vm_compute. reflexivity. Qed.
+
+Example C20_ex_corrindex_Q :
+  correlation_index Qops (Some AvgScore) (0#1) [[[3#1]; [4#1]]] [[[-6#1]; [-8#1]]] [[5#1]] [[10#1]] = Ok 0%Q.
+Proof. vm_compute. reflexivity. Qed.
+
+(* unit-norm columns: leverage scores of U = e_1 (2 x 1) *)
+Example C20_ex_leverage_Q : leverage_score_dist Qops [[1#1]; [0#1]] [2#1] 2 1 (1#1000) = Ok [1%Q; 0%Q].
+Proof. vm_compute. reflexivity. Qed.
